@@ -10,8 +10,9 @@
 (* offsets).  Evidence: every table with nv, nr in Counts^3 (observations   *)
 (* per variant / per locus; one copy = 10) x the region-depth vectors       *)
 (* Depths (planted from {1,1}, {1,4}, {4,4}, {1,1,+1}, and a noisy one).    *)
-(*   MC_BuildIndep.cfg        Counts = {0,10,20}: 729 x 5 tables            *)
-(*   MC_BuildIndep_quick.cfg  Counts = {0,10,20} for nv, {10,20} for nr     *)
+(*   MC_BuildIndep.cfg        nv, nr in {0,10,20}^3, all 5 depth vectors    *)
+(*   MC_BuildIndep_quick.cfg  nv in {0,10,20}^3, nr in {10,20}^3, depth      *)
+(*                            vectors 1-4 (no three-copy structure)          *)
 (* Hazard cfgs (BuildFree must be VIOLATED): _genome_order, _refseq_anchor; *)
 (* non-vacuity cfgs (probe invariants must be violated): _nonempty, _fusion.*)
 (***************************************************************************)
@@ -36,13 +37,14 @@ MCPCN == [diff10 |-> 100, fit10 |-> 10, pars |-> 37500, parsL |-> 18750, parsR |
 MCPStage == [thrN |-> 1, thrD |-> 2, minCov10 |-> 20, cnMax |-> 20, novelPen |-> 210000, gapN |-> 0, gapD |-> 1,
              missPen |-> 15000, addPen |-> 10000]
 
-CONSTANTS CountsV, CountsR
+CONSTANTS CountsV, CountsR, DepthSel
 (* region depths (1/100 copies) in Regions order up,e1,i1,e2: gene / pseudogene *)
-Depths == { [g |-> <<200, 200, 200, 200>>, p |-> <<200, 200, 200, 200>>],      \* 1/1
-            [g |-> <<100, 100, 200, 200>>, p |-> <<200, 200, 100, 100>>],      \* 1/4
-            [g |-> <<0, 0, 200, 200>>,     p |-> <<200, 200, 0, 0>>],          \* 4/4
-            [g |-> <<300, 300, 300, 300>>, p |-> <<200, 200, 200, 200>>],      \* 1/1 + an extra copy
-            [g |-> <<130, 110, 170, 210>>, p |-> <<190, 220, 120, 90>>] }      \* noisy 1/4
+DepthList == << [g |-> <<200, 200, 200, 200>>, p |-> <<200, 200, 200, 200>>],      \* 1: 1/1
+               [g |-> <<100, 100, 200, 200>>, p |-> <<200, 200, 100, 100>>],      \* 2: 1/4
+               [g |-> <<0, 0, 200, 200>>,     p |-> <<200, 200, 0, 0>>],          \* 3: 4/4
+               [g |-> <<130, 110, 170, 210>>, p |-> <<190, 220, 120, 90>>],       \* 4: noisy 1/4
+               [g |-> <<300, 300, 300, 300>>, p |-> <<200, 200, 200, 200>>] >>    \* 5: 1/1 + an extra copy
+Depths == {DepthList[i] : i \in DepthSel}
 MCEvidence == {[nv |-> v, nr |-> r, dg |-> d.g, dp |-> d.p] :
                   v \in [1..3 -> CountsV], r \in [1..3 -> CountsR], d \in Depths}
 =============================================================================
